@@ -146,6 +146,20 @@ func genHistory(r *rand.Rand, fullDelta bool, small bool, feat map[string]bool) 
 		}
 		var prev byte
 		closed := false
+		if !small && !many && t == ntr-1 && r.Intn(6) == 0 {
+			// a LAST track whose chunk body passes 32 KiB / 64 KiB (chunk length needs its third byte; writers that
+			// block or buffer large chunks differently)
+			k := 2 + r.Intn(4)
+			for j := 0; j < k; j++ {
+				n := 16384 + r.Intn(4000)
+				m := append(append([]byte{0xFF, 0x7F}, vlq(uint32(n))...), payload(r, n, false)...)
+				if j%2 == 1 {
+					m = append([]byte{0xF0}, payload(r, n, true)...)
+				}
+				h = append(h, Op{Op: "add", D: digits(genDelta(r, fullDelta)), Msgs: []hx.B{m}})
+			}
+			feat["huge_last_track"] = true
+		}
 		for e := 0; e < nev; e++ {
 			k := 1
 			if r.Intn(5) == 0 {
@@ -242,6 +256,10 @@ func alienChunk(r *rand.Rand, feat map[string]bool) []byte {
 	return append(append(typ, be32(n)...), body...)
 }
 
+// oddMeta: when set, meta events of the types whose length the format fixes (tempo, time/key signature, SMPTE offset,
+// sequence number, channel, port) get OTHER self-consistent lengths.  Such files are only used as "any bytes" for C05.
+var oddMeta = false
+
 func genValidFile(r *rand.Rand, big bool, feat map[string]bool) []byte {
 	format := r.Intn(3)
 	ntr := 1
@@ -321,6 +339,10 @@ func genValidFile(r *rand.Rand, big bool, feat map[string]bool) []byte {
 				if big && r.Intn(40) == 0 {
 					n = 65536 + r.Intn(5000) // three-byte length
 					feat["payload_3byte_len"] = true
+				}
+				if oddMeta && r.Intn(2) == 0 {
+					typ = []byte{0x51, 0x58, 0x59, 0x54, 0x00, 0x20, 0x21, 0x7F, 0x01}[r.Intn(9)]
+					n = r.Intn(7)
 				}
 				if n >= 128 {
 					feat["long_payload"] = true
